@@ -380,3 +380,10 @@ PROPS["C20"].streams.append(Stream("sizes", "sizes", treegen.sizes_cases, flavou
 
 PROPS["C04"].streams.append(struct_fault(("rel",), None, "growth-fault"))
 PROPS["C12"].streams.append(struct_fault(("rel",), None, "growth-fault"))
+
+sethandle = lambda flavours=("rel",), env=None, name="set-handle": Stream(
+    name, "hist", histgen.sethandle_cases, args=(LDEF, CAP, "none", 0), flavours=flavours, env=env, nontrivial=lambda c, l: "seth" in c,
+    rule="client-provided buffers: cbor_new_definite_(byte)string + set_handle of a buffer obtained from the installed allocator, shortening in place by re-installing the item's own buffer, then use in containers / chunked strings, copy, serialize, release; complete allocator trace (a buffer freed by set_handle or freed twice shows as an extra or BADPTR event)")
+PROPS["C13"].streams += [sethandle(("rel",), {"HX_ALLOC": "tag"}, "set-handle-tag"), sethandle(("dbg",), None, "set-handle")]
+PROPS["C04"].streams.append(sethandle(("rel", "dbg")))
+PROPS["C16"].streams.append(sethandle(("rel",)))
